@@ -428,6 +428,13 @@ def jpegScan (d : List Nat) : Nat → Nat → Outcome (Nat × Nat × Nat)
       else if pos + 1 ≥ d.length then .err .jpegTrunc
       else jpegScan d fuel (pos + be16At d pos)
 
+/-- the `match components` of `parse_jpeg_header` -/
+def csOfComponents : Nat → Option ColorSpace
+  | 1 => some .deviceGray
+  | 3 => some .deviceRGB
+  | 4 => some .deviceCMYK
+  | _ => none
+
 /-- `parse_jpeg_header` + `Image::from_jpeg_data` -/
 def Image.fromJpegData (d : List Nat) : Outcome Image :=
   if d.length < 2 ∨ d.getD 0 0 ≠ 0xFF ∨ d.getD 1 0 ≠ 0xD8 then .err .notjpeg
@@ -438,12 +445,7 @@ def Image.fromJpegData (d : List Nat) : Outcome Image :=
     | .ok (w, h, comps) =>
       if w = 0 ∨ h = 0 then .err .jpegNodims
       else
-        let cs? := match comps with
-          | 1 => some ColorSpace.deviceGray
-          | 3 => some ColorSpace.deviceRGB
-          | 4 => some ColorSpace.deviceCMYK
-          | _ => none
-        match cs? with
+        match csOfComponents comps with
         | none => .err .jpegComponents
         | some cs =>
           .ok { data := d, format := .jpeg, width := w, height := h, colorSpace := cs,
